@@ -479,12 +479,30 @@ const LINES: &[&str] = &[
     "w=1 v=({0} {1}) {2} {3}",
     "v= ({0})",
     "v=({0} > {1})",
+    "v=; {0}",
+    "v=\n{0}",
+    "v=|{0}",
+    "v= {0}",
     // declaration utilities (expansion mode of the arguments; `command` defers the decision)
     "export {0}={1} {2}",
     "readonly {0} {1}",
     "command export {0}={1}",
     "command {0} {1}",
     "typeset {0}=~ {1}",
+    // here-documents: the delimiter is a redirection operand (global aliases / blank rule apply to it);
+    // the body is read raw at the next newline
+    "cat <<{0}\nx\n{0}\n{1}",
+    "cat <<E {0}\n{1}\nE\n{2}",
+    "{0} <<-E\n\tx {1}\n\tE\n{1}",
+    "cat << {0} << {1}\nx\n{0}\ny\n{1}\n{2}",
+    "cat <<E\n{0}",
+    "{0} <<'E'\n{1}\nE\n",
+    "cat <<\\{0}\nx\n{0}\n{1}",
+    "if {0} <<E\nx\nE\nthen {1}; fi",
+    "cat <<{0}",
+    "{0} <<E; {1}\n{2}\nE\n{3}",
+    "{0} <<E |\n{1}\nE\n{2}",
+    "x {0} << {1} {2}\n{1}\n{2}\n",
     // reserved words the parser knows but does not support
     "function {0}",
     "[[ {0} ]]",
